@@ -85,6 +85,19 @@ def src_two_lines(spout="FIRST_AVAILABLE", sb=True, iat=(1,) * 30, pds=((2,), (3
     return {"Q": Q, "T": T, "family": "source-two-lines", "expect": "valid", "drains": False, "nodes": nodes, "edges": edges}
 
 
+def fleet_merge(to_sink=True, pin="FIRST_AVAILABLE", iat1=(1,) * 12, iat2=(1,) * 12, fcap=(2, 2), fdelay=(6, 6), transit=(1, 1), pd=(2,), wc=1, T=160):
+    """two sources -> two FLEETS -> one sink (or one machine): both fleets deliver in the same instant, the consumer is
+    granted on both, takes one and withdraws the other reservation"""
+    nodes = [_n("source", blocking=True, iat=list(iat1)), _n("source", blocking=True, iat=list(iat2))]
+    edges = [_e("fleet", 0, 2, cap=fcap[0], delay=fdelay[0], transit=transit[0]), _e("fleet", 1, 2, cap=fcap[1], delay=fdelay[1], transit=transit[1])]
+    if to_sink:
+        nodes.append(_n("sink"))
+    else:
+        nodes += [_n("machine", wc=wc, pd=list(pd), policy_in=pin), _n("sink")]
+        edges.append(_e("buffer", 2, 3, cap=2))
+    return {"Q": Q, "T": T, "family": "fleet-merge", "expect": "valid", "drains": True, "nodes": nodes, "edges": edges}
+
+
 def comb_split(recipe=(1, 2), piat=(8, 8), iiat=(2, 2, 2, 2, 2), cpd=(4,), spd=(2,), cb=True, spb=True, T=200,
                spout="FIRST_AVAILABLE", two_ing=False, caps=(2, 4, 2, 3), iiat2=None, out_delay=0, out2=None):
     nodes = [_n("source", blocking=True, iat=list(piat), kind="pallet"), _n("source", blocking=True, iat=list(iiat))]
@@ -306,6 +319,10 @@ def families(tier):
         C.append(fleet_mid(pout=pout, pin2=pin2, iat1=(4,) * 12, iat2=(4,) * 12, pd=(2,), pd2=(4,), fcap=3, fdelay=8, transit=1, T=200))
         C.append(fleet_mid(pout=pout, pin2=pin2, iat1=(4,) * 12, iat2=(4,) * 12, pd=(2,), pd2=(4,), fcap=2, fdelay=12, transit=2, T=200))
         C.append(fleet_mid(pout=pout, pin2=pin2, wc=3, iat1=(1,) * 10, iat2=(1,) * 10, pd=(3,), fcap=4, fdelay=12, transit=2, pd2=(2,)))
+    for to_sink, pin in [(True, 0), (False, "FIRST_AVAILABLE"), (False, "ROUND_ROBIN")]:
+        C.append(fleet_merge(to_sink, pin))
+        C.append(fleet_merge(to_sink, pin, fcap=(1, 1), fdelay=(4, 4), transit=(0, 0)))
+        C.append(fleet_merge(to_sink, pin, fcap=(3, 2), fdelay=(8, 4), transit=(2, 0), iat1=(2,) * 10, iat2=(1,) * 10, wc=2))
     for spout, pins, pds in itertools.product(["FIRST_AVAILABLE", "ROUND_ROBIN"], [("FIRST_AVAILABLE", 0), (0, "FIRST_AVAILABLE"), (0, 0), ("ROUND_ROBIN", "FIRST_AVAILABLE")],
                                               [((8,), (12,)), ((12,), (8,)), ((4,), (4,))]):
         C.append(src_two_lines(spout=spout, pins=pins, pds=pds, iat=(4,) * 30))
